@@ -47,6 +47,7 @@ type vEnv struct {
 	stopReturned bool
 	stoppedBeforeStart bool
 	ignoreSignal bool // the plugin does not react to the cancel signal
+	slowClose   bool // stopping a deployed plugin takes (virtual) time
 	closeFaults bool // Close() of the ATP client / the plugin may fail
 
 	deployments int
@@ -77,6 +78,9 @@ func (p *vPlugin) Read(b []byte) (int, error)  { return 0, nil }
 func (p *vPlugin) Write(b []byte) (int, error) { return len(b), nil }
 func (p *vPlugin) Close() error {
 	verifrt.Yield("plugin.Close")
+	if p.env.slowClose {
+		<-verifrt.TimerChan(400000000) // stopping the container takes 400 ms
+	}
 	verifAtomicPluginClose(p)
 	if p.env.closeFaults && verifrt.Choice("plugin.Close fails", 2) == 1 {
 		return &verifrt.Err{Msg: "plugin close failed"}
